@@ -403,6 +403,7 @@ def generate(vc_path, out_dir, canary=False):
     block = None       # current impl/trait Item
     block_file = None
     erasure = []       # (fn name, rewritten source text)
+    item_subs = {}
     i = 0
     out.add("// GENERATED by verif/tools/gen.py from %s and the current /repo sources. Do not edit.\n" % os.path.basename(vc_path))
     out.add("#![allow(unused_imports, unused_variables, unused_mut, dead_code, non_snake_case, unused_assignments, unused_parens, non_camel_case_types, unreachable_code, unused_braces)]\n")
@@ -443,6 +444,11 @@ def generate(vc_path, out_dir, canary=False):
                     continue
                 obligations.append("%s.raw.%s" % (unit_id, m.group(2)))
             out.add(txt + "\n\n", section="raw", raw=rawname)
+        elif d.name == "itemsub":
+            m3 = re.match(r"(\w+)\s+(\w+)\s+/((?:[^/\\]|\\.)*)/((?:[^/\\]|\\.)*)/\s*(.*)$", d.arg)
+            if not m3:
+                raise ContractSyntax("bad @itemsub at line %d" % d.lineno)
+            item_subs.setdefault((m3.group(1), m3.group(2)), []).append((m3.group(3), m3.group(4), parse_opts(m3.group(5)).get("why", "")))
         elif d.name == "item":
             open_verus()
             parts = d.arg.split()
@@ -469,6 +475,11 @@ def generate(vc_path, out_dir, canary=False):
                     keep.append(a)
                 else:
                     dropped.append("%s %s: %s" % (kind, name, a))
+            for (rx, repl, why) in item_subs.get((kind, name), []):
+                body, k3 = re.subn(rx, repl, body, flags=re.S)
+                if k3 == 0:
+                    raise LostAnchor("%s: @itemsub /%s/ matched nothing in %s %s" % (unit_id, rx, kind, name))
+                rewrites_log.append({"id": "ITEMSUB", "fn": "%s %s" % (kind, name), "why": why, "regex": rx})
             if "#[default]" in body:
                 body = body.replace("#[default]", "")
                 dropped.append("%s %s: #[default] variant markers (derive(Default) dropped)" % (kind, name))
